@@ -27,6 +27,10 @@ def build(case: Dict[str, Any]) -> Tuple[Dict[str, Any], Dict[str, Any], Problem
                            zero_bounds=case.get("zero_bounds", False))
     for k, v in (case.get("override") or {}).items():
         kw[k] = v
+    gz = (case.get("features") or {}).get("gtol_zero")
+    if gz is not None:
+        # a projected-gradient tolerance that is exactly zero, in the form the user happens to write it
+        kw["gtol"] = {"int": 0, "float": 0.0, "np": np.float64(0.0), "callable": (lambda: 0.0)}[gz]
     return kw, desc, p
 
 
